@@ -8,6 +8,7 @@ package sim
 import (
 	"context"
 	"fmt"
+	"runtime"
 	"sort"
 	"strings"
 	"sync"
@@ -613,6 +614,26 @@ func (cl *Cluster) MaxIssued() uint64 {
 		}
 	}
 	return m
+}
+
+// GoroutineDump returns the stacks of all goroutines that are inside the harness or client-go (for hang reports).
+func GoroutineDump() string {
+	buf := make([]byte, 4<<20)
+	buf = buf[:runtime.Stack(buf, true)]
+	var keep []string
+	for _, g := range strings.Split(string(buf), "\n\n") {
+		if strings.Contains(g, "verif/") || strings.Contains(g, "client-go/v2/txnkv") || strings.Contains(g, "client-go/v2/tikv.") {
+			lines := strings.Split(g, "\n")
+			if len(lines) > 24 {
+				lines = lines[:24]
+			}
+			keep = append(keep, strings.Join(lines, "\n"))
+		}
+	}
+	if len(keep) > 12 {
+		keep = keep[:12]
+	}
+	return strings.Join(keep, "\n\n")
 }
 
 // NextCall returns a fresh API call id.
